@@ -71,6 +71,7 @@ func (t *T0x1210) Parse(jtMsg *jt808.JTMessage) error {
 		return protocol.ErrBodyLengthInconsistency
 	}
 	start := cursor
+	t.T0x1210AlarmItemList = nil // 复用对象时 不保留上一次的列表
 	for i := 0; i < int(t.AttachCount); i++ {
 		fileNameLen := body[start]
 		if len(body) < start+1+int(fileNameLen)+4 {
